@@ -54,6 +54,9 @@ SetupExpected(d) ==
    IF d.receiver_private /\ d.enc = "none" THEN "ValueError"
    ELSE IF ~d.receiver_private /\ d.enc # "none" THEN "ValueError"
    ELSE IF (d.psk_len = 0) # (d.pskid_len = 0) THEN "ValueError"
+   \* psk is documented as "a 2-tuple of non-empty byte strings": the explicit empty pair selects a PSK mode without a secret (RFC 9180 5.1
+   \* VerifyPSKInputs: "Missing required PSK input"), with and without a sender key
+   ELSE IF d.psk_given /\ d.psk_len = 0 THEN "ValueError"
    ELSE IF d.psk_len > 0 /\ d.psk_len < 32 THEN "ValueError"
    ELSE IF d.has_sender /\ (d.sender_private = d.receiver_private) THEN "ValueError"
    ELSE IF d.has_sender /\ ~d.same_curve THEN "ValueError"
